@@ -64,8 +64,8 @@ def chain_for(ty):
 
 
 # ---------------------------------------------------------------- terminals on u8-valued pipelines
-PRED = "move |x: &{T}| {{ let r = {V} & 4 == 0; if r {{ model::matched(); }} r }}"
-PRED_SEQ = "move |x: &{T}| {V} & 4 == 0"
+PRED = "move |x: &{T}| {{ let r = {V} & 16 == 0; if r {{ model::matched(); }} r }}"
+PRED_SEQ = "move |x: &{T}| {V} & 16 == 0"
 
 
 def pred(kind, seq=False):
@@ -90,55 +90,55 @@ def terminal_code(p, params, term, n):
     v = lambda x: item_val(k, x)
     s = ""
     if term == "count":
-        s += f"    let r = {par}.count();\n    let e = {seq}.count();\n"
+        s += f"    let r = {par}.count();\n    ORACLE.store(true, AO::Relaxed);\n    let e = {seq}.count();\n"
         s += '    assert!(r == e, "count differs from the sequential count");\n'
     elif term in ("reduce_xor", "reduce_add", "reduce_min", "reduce_max"):
         assert k == "val"
         op = {"reduce_xor": "a ^ b", "reduce_add": "a.wrapping_add(b)", "reduce_min": "if a <= b { a } else { b }",
               "reduce_max": "if a >= b { a } else { b }"}[term]
-        s += f"    let r = {par}.reduce(|a: u8, b: u8| {op});\n    let e = {seq}.reduce(|a: u8, b: u8| {op});\n"
+        s += f"    let r = {par}.reduce(|a: u8, b: u8| {op});\n    ORACLE.store(true, AO::Relaxed);\n    let e = {seq}.reduce(|a: u8, b: u8| {op});\n"
         s += '    assert!(r == e, "reduce differs from the sequential fold");\n'
         s += "    kani::cover!(e.is_none());\n    kani::cover!(e.is_some());\n"
     elif term == "reduce_ref_min":
         assert k == "ref"
         s += f"    let r = {par}.reduce(|a: &u8, b: &u8| if *a <= *b {{ a }} else {{ b }}).copied();\n"
-        s += f"    let e = {seq}.reduce(|a: &u8, b: &u8| if *a <= *b {{ a }} else {{ b }}).copied();\n"
+        s += f"    ORACLE.store(true, AO::Relaxed);\n    let e = {seq}.reduce(|a: &u8, b: &u8| if *a <= *b {{ a }} else {{ b }}).copied();\n"
         s += '    assert!(r == e, "reduce differs from the sequential fold");\n'
     elif term in ("min", "max"):
         assert k in ("val", "ref")
-        s += f"    let r = {par}.{term}();\n    let e = {seq}.{term}();\n"
+        s += f"    let r = {par}.{term}();\n    ORACLE.store(true, AO::Relaxed);\n    let e = {seq}.{term}();\n"
         s += f'    assert!(r == e, "{term} differs");\n'
     elif term == "sum":
         conv = f"move |x: {T}| {v('x')} as u16"
-        s += f"    let r: u16 = {par}.map({conv}).sum();\n    let e: u16 = {seq}.map({conv}).sum();\n"
+        s += f"    let r: u16 = {par}.map({conv}).sum();\n    ORACLE.store(true, AO::Relaxed);\n    let e: u16 = {seq}.map({conv}).sum();\n"
         s += '    assert!(r == e, "sum differs");\n'
     elif term == "fold":
         assert k == "val"
-        s += f"    let r = {par}.fold(|| 0u8, |a: u8, b: u8| a ^ b);\n    let e = {seq}.fold(0u8, |a: u8, b: u8| a ^ b);\n"
+        s += f"    let r = {par}.fold(|| 0u8, |a: u8, b: u8| a ^ b);\n    ORACLE.store(true, AO::Relaxed);\n    let e = {seq}.fold(0u8, |a: u8, b: u8| a ^ b);\n"
         s += '    assert!(r == e, "fold differs");\n'
     elif term in ("min_by_key", "max_by_key"):
         assert k == "val"
         s += f"    let r = {par}.{term}(|x: &u8| *x >> 4);\n"
-        s += f"    let ek = {seq}.map(|x: u8| x >> 4).{term[:3]}();\n"
+        s += f"    ORACLE.store(true, AO::Relaxed);\n    let ek = {seq}.map(|x: u8| x >> 4).{term[:3]}();\n"
         s += f'    assert!(r.map(|x| x >> 4) == ek, "{term}: key is not extremal / None mismatch");\n'
         s += f'    if let Some(x) = r {{ assert!({seq}.any(|y: u8| y == x), "{term}: result is not a surviving element"); }}\n'
     elif term in ("min_by", "max_by"):
         assert k == "val"
         s += f"    let r = {par}.{term}(|x: &u8, y: &u8| (*x >> 4).cmp(&(*y >> 4)));\n"
-        s += f"    let ek = {seq}.map(|x: u8| x >> 4).{term[:3]}();\n"
+        s += f"    ORACLE.store(true, AO::Relaxed);\n    let ek = {seq}.map(|x: u8| x >> 4).{term[:3]}();\n"
         s += f'    assert!(r.map(|x| x >> 4) == ek, "{term}: key is not extremal / None mismatch");\n'
         s += f'    if let Some(x) = r {{ assert!({seq}.any(|y: u8| y == x), "{term}: result is not a surviving element"); }}\n'
     elif term == "find":
-        s += f"    let r = {par}.find({pred(k)});\n    let e = {seq}.find({pred(k, True)});\n"
+        s += f"    let r = {par}.find({pred(k)});\n    ORACLE.store(true, AO::Relaxed);\n    let e = {seq}.find({pred(k, True)});\n"
         s += cmp_opt(k, "find does not return the first match in source order")
     elif term == "first":
-        s += f"    let r = {par}.first();\n    let e = {seq}.next();\n"
+        s += f"    let r = {par}.first();\n    ORACLE.store(true, AO::Relaxed);\n    let e = {seq}.next();\n"
         s += cmp_opt(k, "first does not return the first element in source order")
     elif term == "any":
-        s += f"    let pf = {pred(k, True)};\n    let r = {par}.any({pred(k)});\n    let e = {seq}.any(|x| pf(&x));\n"
+        s += f"    let pf = {pred(k, True)};\n    let r = {par}.any({pred(k)});\n    ORACLE.store(true, AO::Relaxed);\n    let e = {seq}.any(|x| pf(&x));\n"
         s += '    assert!(r == e, "any differs");\n    kani::cover!(e);\n    kani::cover!(!e);\n'
     elif term == "all":
-        s += f"    let pf = {pred(k, True)};\n    let r = {par}.all({pred(k)});\n    let e = {seq}.all(|x| pf(&x));\n"
+        s += f"    let pf = {pred(k, True)};\n    let r = {par}.all({pred(k)});\n    ORACLE.store(true, AO::Relaxed);\n    let e = {seq}.all(|x| pf(&x));\n"
         s += '    assert!(r == e, "all differs");\n    kani::cover!(e);\n    kani::cover!(!e);\n'
     elif term in ("find_with_index", "first_with_index"):
         if term == "find_with_index":
@@ -149,14 +149,52 @@ def terminal_code(p, params, term, n):
             s += f"    let r = {par}.first_with_index();\n"
             single = f"{p.seq_single('i')}.next().is_some()"
             val_of_single = f"{p.seq_single('i')}.next()"
-        s += f"    let mut e = None;\n    let mut i = 0;\n    while i < {n} {{ if e.is_none() && {single} {{ e = Some((i, {val_of_single}.unwrap())); }} i += 1; }}\n"
+        s += f"    ORACLE.store(true, AO::Relaxed);\n    let mut e = None;\n    let mut i = 0;\n    while i < {n} {{ if e.is_none() && {single} {{ e = Some((i, {val_of_single}.unwrap())); }} i += 1; }}\n"
         if k == "ref":
             s += '    assert!(r.map(|x| (x.0, *x.1)) == e.map(|x| (x.0, *x.1)), "index/value is not that of the first match in the source");\n'
         else:
             s += '    assert!(r == e, "index/value is not that of the first match in the source");\n'
         s += "    kani::cover!(e.is_none());\n    kani::cover!(matches!(e, Some((i, _)) if i > 0));\n"
+    elif term in ("reduce_nc", "reduce_sub"):
+        assert k == "val"
+        op = {"reduce_nc": "a.wrapping_mul(31) ^ b", "reduce_sub": "a.wrapping_sub(b)"}[term]
+        s += f"    let r = {par}.reduce(|a: u8, b: u8| {op});\n    ORACLE.store(true, AO::Relaxed);\n    let e = {seq}.reduce(|a: u8, b: u8| {op});\n"
+        s += '    assert!(r == e, "reduce is not the left-to-right fold");\n'
+    elif term == "fold_nc":
+        assert k == "val"
+        s += f"    let r = {par}.fold(|| 1u8, |a: u8, b: u8| a.wrapping_mul(31) ^ b);\n"
+        s += f"    ORACLE.store(true, AO::Relaxed);\n    let e = {seq}.reduce(|a: u8, b: u8| a.wrapping_mul(31) ^ b).unwrap_or(1u8);\n"
+        s += '    assert!(r == e, "fold is not the left-to-right fold");\n'
+    elif term in ("collect_vec", "collect"):
+        s += f"    let out = {par}.{term}();\n"
+        s += seq_eq_loop(seq, k, "out", 0)
+    elif term == "collect_x":
+        s += f"    let out = {par}.collect_x();\n"
+        s += multiset_eq(seq, k, "out", n)
     else:
         raise ValueError(term)
+    return s
+
+
+def seq_eq_loop(seq, k, out, offset, msg="collected sequence differs from the sequential one"):
+    """assert out[offset..] == seq, element by element (no slice compare: that is a memcmp loop)"""
+    vo = {"ref": f"*{out}[j]", "val": f"{out}[j]", "idx": f"{out}[j]"}[k]
+    vx = {"ref": "*x", "val": "x", "idx": "x"}[k]
+    s = f"    ORACLE.store(true, AO::Relaxed);\n    let mut j = {offset};\n"
+    s += f"    for x in {seq} {{ assert!(j < {out}.len() && {vo} == {vx}, \"{msg}\"); j += 1; }}\n"
+    s += f"    assert!(j == {out}.len(), \"{msg} (length)\");\n"
+    return s
+
+
+def multiset_eq(seq, k, out, n, msg="collect_x is not a permutation of the sequential result"):
+    """forall probe value p: count(out, p) == count(seq, p); plus equal lengths"""
+    vo = {"ref": f"*{out}[j]", "val": f"{out}[j]", "idx": f"{out}[j]"}[k]
+    vx = {"ref": "*x", "val": "x", "idx": "x"}[k]
+    pt = "usize" if k == "idx" else "u8"
+    s = f"    let pv: {pt} = kani::any();\n    let mut c1 = 0usize;\n    let mut c2 = 0usize;\n    let mut l2 = 0usize;\n"
+    s += f"    let mut j = 0;\n    while j < {out}.len() {{ if {vo} == pv {{ c1 += 1; }} j += 1; }}\n"
+    s += f"    ORACLE.store(true, AO::Relaxed);\n    for x in {seq} {{ if {vx} == pv {{ c2 += 1; }} l2 += 1; }}\n"
+    s += f"    assert!(c1 == c2 && l2 == {out}.len(), \"{msg}\");\n"
     return s
 
 
